@@ -263,6 +263,47 @@ Proof.
   now rewrite (sf_loop_equal_keys a b sp sp' o _ _ xs Sa Sb K WI).
 Qed.
 
+(* ---------------------------------------------------------------- filter of a filter *)
+Lemma filter_filter_same {X} (p : X -> bool) l : filter p (filter p l) = filter p l.
+Proof. induction l as [|x l IH]; cbn; auto. destruct (p x) eqn:E; cbn; rewrite ?E, IH; reflexivity. Qed.
+Lemma filter_filter_and {X} (p q : X -> bool) l : filter p (filter q l) = filter (fun x => q x && p x) l.
+Proof. induction l as [|x l IH]; cbn; auto. destruct (q x); cbn; [destruct (p x)|]; now rewrite IH. Qed.
+Lemma filter_nil_sub {X} (p q : X -> bool) l : filter p l = [] -> filter p (filter q l) = [].
+Proof.
+  intros H. rewrite filter_filter_and. induction l as [|x l IH]; cbn in *; auto.
+  destruct (p x) eqn:E; [discriminate|]. rewrite andb_false_r. auto.
+Qed.
+(* Specifier.filter is idempotent - the fall-back included: filtering its own output (same override, same argument) changes nothing *)
+Theorem spec_filter_idempotent sp o arg xs ys : wf_member sp -> wf_items xs ->
+  spec_filter_v sp o arg xs = Some ys -> spec_filter_v sp o arg ys = Some ys.
+Proof.
+  intros W WI H.
+  destruct arg as [a|] eqn:EA; [|destruct o as [b|] eqn:EO; [|destruct (auto_pre sp) eqn:AP]].
+  - rewrite spec_filter_exact in H; [|assumption|assumption|left; discriminate]. inversion H; subst ys.
+    rewrite spec_filter_exact; [|assumption|now apply wf_items_filter|left; discriminate]. now rewrite filter_filter_same.
+  - rewrite spec_filter_exact in H; [|assumption|assumption|right; left; discriminate]. inversion H; subst ys.
+    rewrite spec_filter_exact; [|assumption|now apply wf_items_filter|right; left; discriminate]. now rewrite filter_filter_same.
+  - rewrite spec_filter_exact in H; [|assumption|assumption|right; right; exact AP]. inversion H; subst ys.
+    rewrite spec_filter_exact; [|assumption|now apply wf_items_filter|right; right; exact AP]. now rewrite filter_filter_same.
+  - rewrite (spec_filter_fallback sp xs W WI AP) in H. cbv zeta in H. inversion H; subst ys. clear H.
+    destruct (filter (fun x => is_true (contains_v sp None None (snd x))) xs) as [|f fs] eqn:F.
+    + rewrite (spec_filter_fallback sp _ W (wf_items_filter _ xs WI) AP). cbv zeta.
+      rewrite (filter_nil_sub _ _ xs F). now rewrite filter_filter_same.
+    + rewrite <- F. rewrite (spec_filter_fallback sp _ W (wf_items_filter _ xs WI) AP). cbv zeta.
+      rewrite filter_filter_same, F. reflexivity.
+Qed.
+Theorem set_filter_idempotent S arg xs ys : wf_set S -> wf_items xs -> set_filter_v S arg xs = Some ys -> set_filter_v S arg ys = Some ys.
+Proof.
+  intros W WI H. destruct (nil_or_not (ms S)) as [E|NE].
+  - rewrite (empty_set_filter S arg xs E) in H. inversion H; subst ys. clear H. rewrite (empty_set_filter S arg _ E). f_equal.
+    destruct arg as [a|]; [now rewrite filter_filter_same|]. destruct (ov S); [now rewrite filter_filter_same|].
+    destruct (filter (fun x => negb (it_pre x)) xs) as [|f fs] eqn:F.
+    + now rewrite F.
+    + rewrite <- F, filter_filter_same, F. reflexivity.
+  - rewrite (set_filter_exact S arg xs NE W WI) in H. inversion H; subst ys.
+    rewrite (set_filter_exact S arg _ NE W (wf_items_filter _ xs WI)). now rewrite filter_filter_same.
+Qed.
+
 (* non-vacuity: Specifier(">=1.0"), override False, no argument rejects 1.5a1; after enabling (argument True) it is accepted;
    filter under the fall-back returns [1.5a1] which is included in the filter result with pre-releases enabled;
    ">=1.0" and ">=1" filter alike; SpecifierSet([Specifier(">=1.0", prereleases=True)]) enables pre-releases by the fourth layer *)
@@ -286,3 +327,5 @@ Print Assumptions set_filter_monotone.
 Print Assumptions and_effective_text.
 Print Assumptions spec_filter_fallback_iff_text.
 Print Assumptions spec_filter_equal_keys.
+Print Assumptions spec_filter_idempotent.
+Print Assumptions set_filter_idempotent.
